@@ -168,3 +168,46 @@ def _(self, b, extension=None):
 
 
 prop("C11", fucs=["liquer.state_types.JsonStateType.as_bytes", "liquer.state_types.JsonStateType.from_bytes"])
+
+
+# ------------------------------------------------------------------ the pickle codec (the default state type)
+classdef("liquer.state_types.PickleStateType", fields={})
+inline("liquer.state_types.PickleStateType.default_extension")
+
+
+@spec(params=dict(obj=Data), returns=Bytes, uninterpreted=True)
+def pickled(obj):
+    return pickled(obj)
+
+
+@spec(params=dict(b=Bytes), returns=Data, uninterpreted=True)
+def unpickled(b):
+    return unpickled(b)
+
+
+@assumed("pickle.dumps", params=dict(obj=Data), returns=Bytes, pure=True, functional="pickled")
+def _(obj):
+    pass
+
+
+@assumed("pickle.loads", params=dict(b=Bytes), returns=Data, pure=True, functional="unpickled")
+def _(b):
+    pass
+
+
+@contract("liquer.state_types.PickleStateType.as_bytes", params=dict(self=Ref("PickleStateType"), data=Data, extension=Opt(Str)), returns=Tuple(Bytes, Str),
+          opaque={"mimetype_from_extension": Str, "encode": Bytes})
+def _(self, data, extension=None):
+    raises(Exception, label="unsupported-extension")
+    ensures(implies(isnone(extension) or unopt(extension) == "pickle" or unopt(extension) == "pkl", result[0] == pickled(data)), "the-pickle-formats-are-pickle.dumps-of-the-value")
+    ensures(implies(not isnone(extension) and unopt(extension) == "json", result[0] == str_encode(json_text(data), "utf-8")), "the-json-format-is-json.dumps-as-utf-8")
+
+
+@contract("liquer.state_types.PickleStateType.from_bytes", params=dict(self=Ref("PickleStateType"), b=Bytes, extension=Opt(Str)), returns=Data)
+def _(self, b, extension=None):
+    raises(Exception, label="unsupported-extension")
+    ensures(implies(isnone(extension) or unopt(extension) == "pickle" or unopt(extension) == "pkl", result == unpickled(b)), "the-pickle-formats-are-read-with-pickle.loads")
+    ensures(implies(not isnone(extension) and unopt(extension) == "json", result == json_value(bytes_decode(b, "utf-8"))), "the-json-format-with-json.loads-of-the-utf-8-text")
+
+
+prop("C11", fucs=["liquer.state_types.PickleStateType.as_bytes", "liquer.state_types.PickleStateType.from_bytes"])
